@@ -621,7 +621,7 @@ func runC19_5(c *core.Ctx) {
 				badCaller = g.Name
 			}
 		}
-		exported := ast.IsExported(f.Obj.Name())
+		exported := f.Obj.Exported()
 		if exported || nCallers == 0 {
 			allGood = false
 			if badCaller == "" {
